@@ -429,7 +429,7 @@ func pbEigenvalues(symmetric bool) bGen {
 		a, lam := genRealSpectrum(r, n, symmetric)
 		in := matInput("A", a)
 		in.sym = symmetric
-		pb := &problem{routine: "eigensystem", opts: "ComputeEigenvectors=false", class: "real-simple-spectrum", in: []*input{in}, ticks: 5000}
+		pb := &problem{iterative: true, routine: "eigensystem", opts: "ComputeEigenvectors=false", class: "real-simple-spectrum", in: []*input{in}, ticks: 5000}
 		if symmetric {
 			pb.opts += ",Symmetric"
 			pb.class = "symmetric-simple-spectrum"
@@ -469,7 +469,7 @@ func pbSingularValues(r *prng.Rand, n int, e elem, sparse bool) *problem {
 	} else {
 		a = genGeneral(r, m, n, r.Uniform(2, 30))
 	}
-	pb := &problem{routine: "svd", opts: "values", class: class, in: []*input{matInput("A", a)}, ticks: 5000}
+	pb := &problem{iterative: true, routine: "svd", opts: "values", class: class, in: []*input{matInput("A", a)}, ticks: 5000}
 	pb.exec = func(args []any, _ *any) ([]block, error) {
 		h, _, _, err := svd.Run(asMatrix(args[0]))
 		if err != nil {
